@@ -119,8 +119,11 @@ func c05Run(id int, strat string, progs [][]int, mk func(nthreads int) vsChooser
 	vs.active = true
 
 	pollHdr := pollingEventWithVersion[0]
-	otherEv := make([]byte, headerSize)
-	header(otherEv).encode(headerSize, 0, typeFallbackData)
+	// the "other" event of the connection: a stream-close event for a stream the peer does not know; the REAL
+	// handleStreamClose empties the receive queue in front of it (consumeRecvQueue) and then finds no stream
+	otherEv := make([]byte, headerSize+4)
+	header(otherEv).encode(headerSize+4, 0, typeStreamClose)
+	otherEv[headerSize], otherEv[headerSize+1], otherEv[headerSize+2], otherEv[headerSize+3] = 0, 0xFF, 0xFF, 0xFF
 
 	nprod := len(progs)
 	stop := false
@@ -131,7 +134,7 @@ func c05Run(id int, strat string, progs [][]int, mk func(nthreads int) vsChooser
 	inSend := make([]bool, nprod)
 	putFailed := false
 	handled := 0
-	slowPath, lateDelivery, whileDraining := false, false, false
+	slowPath, lateDelivery, whileDraining, drainedEarly := false, false, false, false
 	slWriting := false
 	conn.onWrite = func(typ int) {
 		if typ == int(typePolling) && !consIdle {
@@ -156,7 +159,7 @@ func c05Run(id int, strat string, progs [][]int, mk func(nthreads int) vsChooser
 					vsPre()
 					A.sendCh <- sendReady{nil, otherEv, nil}
 					othersQueued++
-					vsLog(vsKW, sendChCell, int64(typeFallbackData), 0, 0)
+					vsLog(vsKW, sendChCell, int64(typeStreamClose), 0, 0)
 					continue
 				}
 				inSend[i] = true
@@ -199,11 +202,19 @@ func c05Run(id int, strat string, progs [][]int, mk func(nthreads int) vsChooser
 					lateDelivery = true
 				}
 			}
+			if typ != int(typePolling) {
+				consIdle = false
+				if *qb.tail-*qb.head > 0 {
+					drainedEarly = true
+				}
+			}
 			vsLog(vsKR, sockCell, int64(typ), 0, 0)
 			if typ == int(typePolling) {
 				handlePolling(B, pollHdr, nil)
-				consIdle = true
+			} else {
+				handleStreamClose(B, header(otherEv), otherEv[headerSize:])
 			}
+			consIdle = true
 		}
 	}))
 	// A's send loop (mirrors session.go send)
@@ -380,6 +391,9 @@ func c05Run(id int, strat string, progs [][]int, mk func(nthreads int) vsChooser
 	}
 	if whileDraining {
 		c.Feat = append(c.Feat, "event-written-while-draining")
+	}
+	if drainedEarly {
+		c.Feat = append(c.Feat, "queue-emptied-in-front-of-a-socket-item")
 	}
 	_ = sendT
 	return c
